@@ -330,7 +330,7 @@ def run_case(case):
     t = run_torch(case)
     o, traced = run_onnx(case)
     out = {"torch": t, "onnx": o}
-    if traced is not None and "err" not in t and o.get("err") != "unsupported" and ("err" in o or diff_results(t, o)):
+    if traced is not None and "err" not in t and o.get("err") != "unsupported" and ("err" in o or diff_results(t, o, case=case)):
         out["ref"] = run_reference(traced)
     return out
 
@@ -345,7 +345,18 @@ def _close(dt, a, b):
     return a == b
 
 
-def diff_results(ref, got, exact=False):
+_PREC = {"f16": 0, "f32": 1, "f64": 2}
+
+
+def tol_dtype(case, out_dt):
+    """the element type whose tolerance applies: the coarsest of the output type and the float input types
+    (a kernel asked to return float64 from float16 data is not held to float64 accuracy)"""
+    dts = [out_dt] + [x["s"] for x in case["args"] if x["k"] == "t" and x["s"] in _PREC]
+    dts = [d for d in dts if d in _PREC]
+    return min(dts, key=_PREC.get) if dts else out_dt
+
+
+def diff_results(ref, got, exact=False, case=None):
     """None when `got` agrees with `ref`, else a short description of the first difference"""
     if ref["st"] != got["st"]:
         return f"output structure: {ref['st']} ({len(ref['ts'])} tensor(s)) vs {got['st']} ({len(got['ts'])} tensor(s))"
@@ -361,7 +372,7 @@ def diff_results(ref, got, exact=False):
 
             if not np.array_equal(np.array(r["data"], dtype=np.float64), np.array(g["data"], dtype=np.float64), equal_nan=True):
                 return f"output {i}: values {r['data'][:12]} vs {g['data'][:12]}"
-        elif not _close(r["dt"], r["data"], g["data"]):
+        elif not _close(tol_dtype(case, r["dt"]) if case is not None else r["dt"], r["data"], g["data"]):
             return f"output {i}: values {r['data'][:12]} vs {g['data'][:12]}"
     return None
 
@@ -370,6 +381,8 @@ def spec_result(rec):
     """TLC's result record -> the encoding used for torch/onnx results (None for a refusal)"""
     if rec["st"] == "err":
         return None
+    if rec["st"] == "undef":
+        return {"st": "undef", "ts": [], "vals": False}
     st = rec["st"] if rec["st"] in ("one", "first") else "many"
     return {"st": st, "ts": [{"dt": t["dt"], "shape": list(t["shape"]), "data": list(t["data"])} for t in rec["ts"]], "vals": rec["vals"]}
 
@@ -449,16 +462,16 @@ def observe(case, r):
     if "err" in o:
         if o["err"] in ("unsupported", "declined"):
             return "discarded", o["err"] + ": " + o["msg"]
-        if o["err"] == "run" and ref_ok and not diff_results(t if not first else _first_only(t, 1), ref if not first else _first_only(ref, 1)):
+        if o["err"] == "run" and ref_ok and not diff_results(t if not first else _first_only(t, 1), ref if not first else _first_only(ref, 1), case=case):
             return "discarded", "onnxruntime refuses a model the reference evaluator runs to PyTorch's result: " + o["msg"]
         return "refused", o["err"] + ": " + o["msg"]
     if first:
         t, o = _first_only(t, 1), _first_only(o, 1)
         ref = _first_only(ref, 1) if ref_ok else ref
-    d = diff_results(t, o)
+    d = diff_results(t, o, case=case)
     if d is None:
         return "ok", ""
-    if ("shape" in d or "values" in d) and ref_ok and not diff_results(t, ref):
+    if ("shape" in d or "values" in d) and ref_ok and not diff_results(t, ref, case=case):
         return "discarded", "onnxruntime and the reference evaluator disagree on the same graph (the latter agrees with PyTorch): " + d
     return "wrong", d
 
@@ -513,7 +526,9 @@ def judge(ctx, case, r, stats, groups):
         return
     # implementation model vs the real function
     m2 = None
-    if kind == "ok":
+    if model is not None and model["st"] == "undef":
+        pass        # the emitted graph is outside the ONNX specification: every outcome is consistent with the model
+    elif kind == "ok":
         if model is None or diff_spec({**model, "vals": model["vals"] and spec["vals"]}, r["torch"] if case["exp"]["st"] != "first" else _first_only(r["torch"], 1)):
             m2 = f"the model predicts a departure ({why or 'no deviation'}) but the real function agrees with PyTorch"
     elif kind == "refused":
@@ -533,6 +548,8 @@ def judge(ctx, case, r, stats, groups):
                 m2 = f"the model's result differs from what the real function computes: {dm}"
     if m2:
         stats["model_mismatch"] = stats.get("model_mismatch", 0) + 1
+        stats.setdefault("mismatch_ops", {})
+        stats["mismatch_ops"][case["op"]] = stats["mismatch_ops"].get(case["op"], 0) + 1
         if stats["model_mismatch"] <= 15:
             print(f"SPEC-MISMATCH C08 {brief(case)}: impl: {m2}", flush=True)
     # the property
